@@ -61,7 +61,13 @@ func genC08(t *rapid.T) c08Case {
 		case "disable":
 			c.Ops = append(c.Ops, op{K: "enable", Id: id, B: false})
 		case "prop":
-			c.Ops = append(c.Ops, op{K: "setProp", Id: id, Doc: M{"p": rapid.SampledFrom([]string{"p", "q"}).Draw(t, l+".p"), "v": "val"}})
+			x := op{K: "setProp", Id: id, Doc: M{"p": rapid.SampledFrom([]string{"p", "q"}).Draw(t, l+".p"), "v": "val"}}
+			if rapid.Bool().Draw(t, l+".asFact") {
+				// the other supported way to write a property: as a fact
+				// (with an id of its own choosing, which is ignored)
+				x.Doc["asFact"] = true
+			}
+			c.Ops = append(c.Ops, x)
 		}
 	}
 	// delete phase (with a few late additions and reloads mixed in)
@@ -137,7 +143,12 @@ func runC08(c c08Case) *vlib.Outcome {
 				if p == "" {
 					p = "p"
 				}
-				if err := w.setProp("L", x.Id, p, x.Doc["v"]); err != nil {
+				if asFact, _ := x.Doc["asFact"].(bool); asFact {
+					if r := w.addFact("L", "", M{"id": x.Id, "!" + p: x.Doc["v"]}); r.Err != nil {
+						o.Fail("ADD_ERROR", "%s: AddFact of a property failed: %v", when, r.Err)
+					}
+					o.Label("property-written-as-fact")
+				} else if err := w.setProp("L", x.Id, p, x.Doc["v"]); err != nil {
 					o.Fail("SETPROP_ERROR", "%s: SetProp failed: %v", when, err)
 				}
 			case "remFact", "remRule":
